@@ -286,6 +286,60 @@ def silent_write_faults(exe, shim, root, seed, tier, stats):
     a.destroy()
     return problems
 
+def stale_tmp_links(exe, shim, root, seed, tier, stats):
+    """a left-over <content>.tmp that is a symlink or a hard link to the live content file: the new file must still
+    be written beside the old one (fresh file), never through the link into the old copy"""
+    rng = e2e.Rng(seed)
+    problems = []
+    nc = 2 + rng.below(2)
+    a = e2e.Arr(root, exe, ndisks=2, nparity=1, ncontent=nc)
+    s = sim.Sim(a, rng.fork(), weird_names=False); s.populate(2 + rng.below(3))
+    s.sync()
+    s.fs_random(2)
+    backup = root + '.bak'
+    shutil.copytree(a.root, backup, symlinks=True)
+    old = [open(c, 'rb').read() for c in a.contents]
+    for kind in ('symlink', 'hardlink', 'hardlink-kill'):
+        shutil.rmtree(a.root); shutil.copytree(backup, a.root, symlinks=True)
+        ci = rng.below(nc)
+        tmp = a.contents[ci] + '.tmp'
+        if kind == 'symlink': os.symlink('content', tmp)
+        else: os.link(a.contents[ci], tmp)
+        what = 'a left-over content.tmp that is a %s to the live copy %d of %d' % ('symlink' if kind == 'symlink' else 'hard link', ci, nc)
+        stats['stale_tmp'] = stats.get('stale_tmp', 0) + 1
+        if kind != 'hardlink-kill':
+            cmd = rng.choice(['touch', 'sync'])
+            r = a.cmd(cmd, uselog=False)
+            blobs = [open(c, 'rb').read() if os.path.isfile(c) and not os.path.islink(c) else None for c in a.contents]
+            st = a.cmd('status')
+            if any(b is None for b in blobs) or st.rc != 0:
+                problems.append(('[stale-tmp-link] %s: after %s (exit %d) a content copy is not a regular loadable file any more (status exit %d)' % (what, cmd, r.rc, st.rc), (r.out + st.out)[-600:]))
+            elif r.rc == 0 and len(set(blobs)) != 1:
+                problems.append(('[stale-tmp-link] %s: %s exits 0 but the copies differ' % (what, cmd), r.out[-400:]))
+        else:
+            # kill in the middle of the first write to that temporary file
+            lg = os.path.join(vlib.scratch(), 'stl%d' % seed)
+            a.cmd('sync', env={'LD_PRELOAD': shim, 'VERIF_LOG': lg}, uselog=False)
+            k = None
+            for line in open(lg, errors='replace'):
+                t = line.split(' ')
+                if len(t) > 2 and t[1] == 'write' and t[2].endswith('/c%d/content.tmp' % ci): k = int(t[0]); break
+            os.unlink(lg)
+            shutil.rmtree(a.root); shutil.copytree(backup, a.root, symlinks=True)
+            os.link(a.contents[ci], tmp)
+            if k is None: continue
+            r = a.cmd('sync', env={'LD_PRELOAD': shim, 'VERIF_KILL': '%d:mid' % k}, uselog=False)
+            if r.rc != -9: continue
+            for i, c in enumerate(a.contents):
+                b = open(c, 'rb').read() if os.path.isfile(c) else None
+                if b is None or (b != old[i] and not vlib.driver_query(['content-dump %d %s' % (a.block, b.hex())])[0].startswith('ok ')):
+                    problems.append(('[stale-tmp-link] %s: sync killed in the middle of the first write to that temporary file leaves content copy %d neither the complete old nor a complete new file' % (what, i), ''))
+                    break
+        if problems: break
+    shutil.rmtree(backup, ignore_errors=True)
+    a.destroy()
+    return problems
+
 def main(tier, seed):
     chk = vlib.Check('C09', 'proof', tier, seed)
     chk.assumptions = ['"never loaded" is a theorem for any single changed byte only through the CRC (crc_detects_byte) given the parse reaches the N record; a changed structure byte may re-segment the file, acceptance then needs a 4-byte CRC coincidence (probability 2^-32 per case, not excluded by a theorem): every swept case is decided by running the binary and the Lean decoder',
@@ -314,6 +368,7 @@ def main(tier, seed):
     for i in range(nsave): jobs.append(('save', i))
     for i in range(nkill): jobs.append(('kill', i))
     for i in range(3 if tier == 'quick' else 20): jobs.append(('silent', i))
+    for i in range(3 if tier == 'quick' else 20): jobs.append(('staletmp', i))
     def run(job):
         kind, i = job
         root = os.path.join(vlib.scratch(), '%s%d' % (kind, i))
@@ -321,6 +376,8 @@ def main(tier, seed):
             return kind, sweep(exe_san, root, i, seed * 1000 + i, tier, stats)
         if kind == 'save':
             return kind, save_protocol(exe, shim, root, seed * 1000 + 100 + i, stats)
+        if kind == 'staletmp':
+            return kind, stale_tmp_links(exe, shim, root, seed * 1000 + 400 + i, tier, stats)
         if kind == 'silent':
             return kind, silent_write_faults(exe, shim, root, seed * 1000 + 300 + i, tier, stats)
         return kind, kill_sweep(exe, shim, root, seed * 1000 + 200 + i, tier, stats)
@@ -337,7 +394,7 @@ def main(tier, seed):
             chk.violation('C09 static obligation failed: ' + o[0], o[0] + '\n' + o[2], False, 'static')
     chk.evaluations = stats['runs'] + stats['saves'] + stats['kills']
     chk.distinct = stats['runs']
-    chk.rule = ('SWEEP on 3 content shapes (v2; v3 with split parity and 8-byte hashes; interrupted sync with pending/deleted blocks, links, 4-byte hashes): every truncation length (sampled above 700 bytes in quick) and byte offsets x {one bit, 0x00, 0xFF, +1} (thorough: every offset, every bit) + multi-byte damage; ASan+UBSan binary must exit non-zero and modify nothing, Lean decoder must reject. Save protocol: shim call logs of saves with 1..5 copies must be accepted by the proved acceptor. Kill sweep before/after/mid every content-file call of a sync. Silent write faults: a flipped bit stored by the 1st/2nd write to the temporary file of each content copy (2-4 copies) must be caught by the verification before any rename')
+    chk.rule = ('SWEEP on 3 content shapes (v2; v3 with split parity and 8-byte hashes; interrupted sync with pending/deleted blocks, links, 4-byte hashes): every truncation length (sampled above 700 bytes in quick) and byte offsets x {one bit, 0x00, 0xFF, +1} (thorough: every offset, every bit) + multi-byte damage; ASan+UBSan binary must exit non-zero and modify nothing, Lean decoder must reject. Save protocol: shim call logs of saves with 1..5 copies must be accepted by the proved acceptor. Kill sweep before/after/mid every content-file call of a sync. Silent write faults: a flipped bit stored by the 1st/2nd write to the temporary file of each content copy (2-4 copies) must be caught by the verification before any rename. Stale temporary files that are symlinks / hard links to the live content copy: the save must still write a fresh file beside the old one')
     chk.samples = [dict(stats)]
     chk.corr['SWEEP+SAVE+KILL'] = {k: v for k, v in stats.items()}
     chk.finish()
